@@ -108,6 +108,9 @@ def run_f(acc):
             except messages.InternalException as err:
                 outcome = 'internal:' + type(err).__name__
             except Exception as err:
+                if 'Stub' in str(err):
+                    raise RuntimeError('stub job cannot follow the code '
+                                       'under test: %s' % err)
                 outcome = 'error:' + type(err).__name__
             acc.evals += 1
             handled = sk == 'feature' and dk == 'dest' and status != 'MERGED'
